@@ -109,7 +109,9 @@ def gen_outcome(rng: random.Random):
         raw = [bp(), beta(True), ic]
     else:
         raw = [ic]
-    return dict(key=key, raw=[float(v) for v in raw], T=[float(v) for v in T], obs=[float(v) for v in obs])
+    # order of the days: residual autocorrelation from none to almost 1 (sorted by residual) feeds the uncertainty path
+    return dict(key=key, raw=[float(v) for v in raw], T=[float(v) for v in T], obs=[float(v) for v in obs],
+                order=rng.choice(["as_is", "as_is", "by_resid", "by_resid_blocks", "alternating"]))
 
 
 def box_of(key, T_min_seg, T_max_seg, qlo, qhi, bmax=10.0):
@@ -125,6 +127,18 @@ def build_result(I, settings, oc):
     Tb = np.array([T.min(), T.max()])
     model = np.asarray(I["scored"][key](*raw, Tb, T), dtype=float)
     resid = model - obs
+    order = oc.get("order", "as_is")
+    if order != "as_is" and np.all(np.isfinite(resid)):
+        perm = np.argsort(resid, kind="stable")
+        if order == "by_resid_blocks":          # monthly-bill-like: long runs of nearly equal residuals
+            perm = perm[np.argsort((np.arange(len(perm)) // 30), kind="stable")]
+        elif order == "alternating":            # strongly anti-correlated
+            half = len(perm) // 2
+            alt = np.empty_like(perm)
+            alt[0::2] = perm[: len(perm) - half]
+            alt[1::2] = perm[len(perm) - half:][::-1][: half]
+            perm = alt
+        T, obs, model, resid = T[perm], obs[perm], model[perm], resid[perm]
     nseg = settings.segment_minimum_count
     qlo, qhi = [float(v) for v in np.quantile(obs, [0.01, 0.99])]
     bnds = box_of(key, float(np.partition(T, nseg)[nseg]), float(np.partition(T, -nseg)[-nseg]), qlo, qhi)
@@ -388,6 +402,8 @@ def meter(rng: random.Random, kind, n=None, noise=None):
         u = 10 + 1.0 * heat + 0.9 * cool
         for i in g.choice(n, 6, replace=False):
             u[i] *= g.choice([0.05, 4.0, 9.0])
+    elif kind == "drifting":        # little temperature response, base load growing through the year: residuals strongly autocorrelated
+        u = 20 * (1 + 0.3 * doy / 365.0) + 0.05 * heat
     elif kind == "smooth":
         u = 10 + 6 * np.log1p(np.exp((55 - T) / 6)) + 5 * np.log1p(np.exp((T - 70) / 5))
     else:
@@ -396,7 +412,7 @@ def meter(rng: random.Random, kind, n=None, noise=None):
     return pd.DataFrame({"temperature": T, "observed": u}, index=idx)
 
 
-KINDS = ["heating", "cooling", "both", "flat", "weekday_weekend", "seasonal", "heat_wave", "cold_snap", "outliers", "smooth"]
+KINDS = ["heating", "cooling", "both", "flat", "weekday_weekend", "seasonal", "heat_wave", "cold_snap", "outliers", "smooth", "drifting"]
 
 
 def fit_real(profile, df):
@@ -442,6 +458,10 @@ def check_result(I, res, sigs, where, r, case, lines, metas, **kw):
            (bool(raw[0] > raw[3 if key.endswith("smooth") else 2]), bool(raw[0] == r.T_min_seg), bool(raw[0] == r.T_max_seg)))
     sigs.add(sig)
     res["hist"][f"{where.split('[')[0]}:{key}->{r.model_key}"] = res["hist"].get(f"{where.split('[')[0]}:{key}->{r.model_key}", 0) + 1
+    if where == "synthetic":
+        res["hist"]["synthetic_order:" + case.get("order", "as_is")] = res["hist"].get("synthetic_order:" + case.get("order", "as_is"), 0) + 1
+        if getattr(r, "DoF", None) is not None and r.DoF <= 1:
+            res["hist"]["synthetic_DoF_at_floor"] = res["hist"].get("synthetic_DoF_at_floor", 0) + 1
     cov = covered(r)
     res["hist"]["theorem_C12_kept_reproduces_scored_covers" if cov else "outside_the_theorem(findings_or_boundary)"] = \
         res["hist"].get("theorem_C12_kept_reproduces_scored_covers" if cov else "outside_the_theorem(findings_or_boundary)", 0) + 1
@@ -490,7 +510,7 @@ def run(ctx):
             res["oracle_failures"].append(dict(where="OptimizedResult(...)", case=dict(key=oc["key"], raw=oc["raw"]),
                                                clause="constructs", detail=dict(error=f"{type(e).__name__}: {e}")))
             continue
-        check_result(I, res, sigs, "synthetic", r, dict(key=oc["key"], raw=oc["raw"], T=oc["T"], obs=oc["obs"]), lines, metas)
+        check_result(I, res, sigs, "synthetic", r, dict(key=oc["key"], raw=oc["raw"], T=oc["T"], obs=oc["obs"], order=oc.get("order", "as_is")), lines, metas)
         if len(res["samples"]) < 2:
             res["samples"].append(dict(key=oc["key"], raw=oc["raw"], kept=r.named_coeffs.model_dump(mode="json", exclude_none=True)))
 
@@ -502,6 +522,7 @@ def run(ctx):
     profiles = ["current", "legacy", "billing"]
     for i in range(n_fits):
         plan.append((profiles[i % 3] if i % 5 != 4 else "current", kinds[i % len(kinds)] if i else "heat_wave"))
+    plan.append(("billing", "drifting"))
     for profile, kind in plan:
         mseed = rng.randrange(1 << 30)
         df = meter(random.Random(mseed), kind)
